@@ -285,6 +285,9 @@ class C19(Property):
                 if c['mode'] == 'u1':
                     c['usys'] = us
                     c['c_unit'] = rng.choice(['M', 'mM', 'uM'])
+                    # container argument: every entry of the mapping may carry its OWN (compatible) unit
+                    if rng.random() < 0.6:
+                        c['c_units'] = [rng.choice(['M', 'mM', 'uM', 'mol/m3']) for _ in keys]
                 add(c)
             elif r == 5:     # density_from_concentration
                 c = {'fn': 'density_from_concentration', 'mode': 'plain', 'conc': lu(10, 18000), 'T': g6(rng.uniform(273.15, 323.15))}
@@ -306,6 +309,14 @@ class C19(Property):
         return cases
 
     # ---- preparing a real call -----------------------------------------------------------------------------
+    def _electrolytes(self, c, uo):
+        """the mapping of quantities: entry k has magnitude c['conc'][i] IN THE UNIT `uo.molar`, expressed in its own unit c['c_units'][i]
+        (all entries in c['c_unit'] when no per-entry units are given); insertion order = order of c['keys']"""
+        U = self.U()
+        names = c.get('c_units') or [c['c_unit']] * len(c['keys'])
+        mf = self.unit_info(uo.molar)[0]
+        return {k: self._q(v * mf / self.unit_info(U['units'][un])[0], un) for k, v, un in zip(c['keys'], c['conc'], names)}
+
     def _q(self, x, unit_name):
         return x * self.U()['units'][unit_name]
 
@@ -565,8 +576,7 @@ class C19(Property):
             else:
                 U = self.U()
                 uo = U['usys'][c['usys']]
-                cf = self.unit_info(U['units'][c['c_unit']])[0] / self.unit_info(uo.molar)[0]
-                el = {k: self._q(v / cf, c['c_unit']) for k, v in zip(c['keys'], c['conc'])}
+                el = self._electrolytes(c, uo)
             r = self._run(lambda: lg_solubility_ratio(el, c['gas'], units=uo))
             if r[0] == 'exc':
                 return ('exc', r[1], 'F-' in el)
@@ -827,8 +837,7 @@ class C19(Property):
         if c['mode'] == 'u1':
             U = self.U()
             uo = U['usys'][c['usys']]
-            cf = self.unit_info(U['units'][c['c_unit']])[0] / self.unit_info(uo.molar)[0]
-            elu = {k: self._q(v / cf, c['c_unit']) for k, v in el.items()}
+            elu = self._electrolytes(c, uo)
             ru = self._run(lambda: lg_solubility_ratio(elu, c['gas'], units=uo))
             if ru[0] == 'exc':
                 return 'lg_solubility_ratio with units raised %s' % ru[1]
@@ -838,7 +847,7 @@ class C19(Property):
             except Exception as e:
                 return 'lg_solubility_ratio with units: result %r is not dimensionless' % (ru[1],)
             if not close(got, float(r[1]), self.float_tol, 1e-300):
-                return 'lg_solubility_ratio with units (%s, %s): %r, plain %r' % (c['usys'], c['c_unit'], got, float(r[1]))
+                return 'lg_solubility_ratio(%s, %r, units=%s) = %r, plain mode %r' % ({k: str(v) for k, v in elu.items()}, c['gas'], c['usys'], got, float(r[1]))
         return None
 
     def _oracle_dfc(self, c):
@@ -990,6 +999,8 @@ class C19(Property):
                 s += ':' + c['cls']
         if c.get('opts') in ('no_units', 'conc_only'):
             s += ':' + c['opts']
+        if c.get('c_units'):
+            s += ':mixed-entry-units' if len(set(c['c_units'])) > 1 else ':same-entry-units'
         if c['fn'] == 'nernst' and 'co_unit' in c:
             s += ':same-prefix' if c['co_unit'] == c['ci_unit'] else ':mixed-prefix'
         if 'usys' in c:
